@@ -317,7 +317,121 @@ func ExprStr(e ast.Expr) string {
 	if e == nil {
 		return "<nil>"
 	}
-	return types.ExprString(e)
+	return types.ExprString(literalRight(e))
+}
+
+// literalRight returns e with every comparison that has a literal on the
+// left and none on the right turned round (0 < n becomes n > 0): the two say
+// the same, and the rules read conditions in the second form.  Nodes are
+// copied only along the path to a comparison that changes.
+func literalRight(e ast.Expr) ast.Expr {
+	switch x := e.(type) {
+	case *ast.ParenExpr:
+		if in := literalRight(x.X); in != x.X {
+			return &ast.ParenExpr{Lparen: x.Lparen, X: in, Rparen: x.Rparen}
+		}
+	case *ast.UnaryExpr:
+		if in := literalRight(x.X); in != x.X {
+			return &ast.UnaryExpr{OpPos: x.OpPos, Op: x.Op, X: in}
+		}
+	case *ast.BinaryExpr:
+		l, r := literalRight(x.X), literalRight(x.Y)
+		op := x.Op
+		if flipped, ok := flipCmp[op]; ok && isLiteral(l) && !isLiteral(r) {
+			return &ast.BinaryExpr{X: r, OpPos: x.OpPos, Op: flipped, Y: l}
+		}
+		if l != x.X || r != x.Y {
+			return &ast.BinaryExpr{X: l, OpPos: x.OpPos, Op: op, Y: r}
+		}
+	}
+	return e
+}
+
+// ConstRight is literalRight with type information: a comparison with a
+// constant (literal, named constant, nil) on the left and none on the right
+// is turned round.  The conditions of the control-flow graph are kept in this
+// form, so that "0 <= n" and "n >= 0" are the same fact to every rule.  The
+// copied nodes get the type information of the originals.
+func ConstRight(info *types.Info, e ast.Expr) ast.Expr {
+	if info == nil {
+		return literalRight(e)
+	}
+	isConst := func(x ast.Expr) bool {
+		if isLiteral(x) {
+			return true
+		}
+		tv, ok := info.Types[x]
+		return ok && (tv.Value != nil || tv.IsNil())
+	}
+	// the operand that is a fixed thing goes to the right: variable things (locals, fields,
+	// calls, anything computed from them) rank 0, package-level variables such as error
+	// sentinels 3, constants 4
+	var rank func(e ast.Expr) int
+	rank = func(e ast.Expr) int {
+		e = ast.Unparen(e)
+		if isConst(e) {
+			return 4
+		}
+		switch x := e.(type) {
+		case *ast.Ident:
+			if v, ok := info.Uses[x].(*types.Var); ok && v.Pkg() != nil && v.Parent() == v.Pkg().Scope() {
+				return 3
+			}
+		case *ast.SelectorExpr:
+			if v, ok := info.Uses[x.Sel].(*types.Var); ok && !v.IsField() && v.Pkg() != nil && v.Parent() == v.Pkg().Scope() {
+				return 3 // pkg.Var
+			}
+		}
+		return 0
+	}
+	var norm func(e ast.Expr) ast.Expr
+	norm = func(e ast.Expr) ast.Expr {
+		var out ast.Expr
+		switch x := e.(type) {
+		case *ast.ParenExpr:
+			if in := norm(x.X); in != x.X {
+				out = &ast.ParenExpr{Lparen: x.Lparen, X: in, Rparen: x.Rparen}
+			}
+		case *ast.UnaryExpr:
+			if x.Op != token.NOT {
+				return e
+			}
+			if in := norm(x.X); in != x.X {
+				out = &ast.UnaryExpr{OpPos: x.OpPos, Op: x.Op, X: in}
+			}
+		case *ast.BinaryExpr:
+			if x.Op == token.LAND || x.Op == token.LOR {
+				l, r := norm(x.X), norm(x.Y)
+				if l != x.X || r != x.Y {
+					out = &ast.BinaryExpr{X: l, OpPos: x.OpPos, Op: x.Op, Y: r}
+				}
+			} else if flipped, ok := flipCmp[x.Op]; ok && rank(x.X) > rank(x.Y) {
+				out = &ast.BinaryExpr{X: x.Y, OpPos: x.OpPos, Op: flipped, Y: x.X}
+			}
+		}
+		if out == nil {
+			return e
+		}
+		if tv, ok := info.Types[e]; ok {
+			info.Types[out] = tv
+		}
+		return out
+	}
+	return norm(e)
+}
+
+var flipCmp = map[token.Token]token.Token{token.LSS: token.GTR, token.LEQ: token.GEQ, token.GTR: token.LSS, token.GEQ: token.LEQ, token.EQL: token.EQL, token.NEQ: token.NEQ}
+
+func isLiteral(e ast.Expr) bool {
+	switch x := ast.Unparen(e).(type) {
+	case *ast.BasicLit:
+		return true
+	case *ast.Ident:
+		return x.Name == "nil" || x.Name == "true" || x.Name == "false"
+	case *ast.UnaryExpr:
+		return (x.Op == token.SUB || x.Op == token.ADD) && isLiteral(x.X)
+	}
+	return false
 }
 
 // FieldSel reports whether e is a selection of field `field` on a value of
